@@ -2612,6 +2612,17 @@ func scenGrownCluster(e *engineA) error {
 	if l == nil {
 		return fmt.Errorf("no leader")
 	}
+	if e.rng.Intn(2) == 0 {
+		// the lone leader has a history: a log of several segments, a
+		// snapshot, and the log compacted behind it - all in the term in which
+		// the others join
+		pad := 90 + 10*e.rng.Intn(4)
+		for i := 0; i < 40+e.rng.Intn(40); i++ {
+			e.cl.fsmOpPad(1, l, "update", pad)
+		}
+		e.cl.takeSnapshot(l, 0)
+		e.sleepHB(1, 2)
+	}
 	e.startClients(2, map[string]int{"update": 3, "read": 1})
 	grow := 2 + 2*e.rng.Intn(2)
 	for i := 0; i < grow; i++ {
